@@ -220,6 +220,10 @@ func runCheck(o *options) int {
 				}
 			}
 			ob.Res.timeS = total
+			if o.tier == "thorough" && ob.Res.status == "unsat" && len(ob.parts) > 0 {
+				// thorough: the whole goal is put to the solvers that did not give the accepted answer
+				ob.Cross = crossCheck(tmp, func(noLambda bool) string { return ob.queryGoal(prelude, noLambda, false, ob.goal) }, ob.Res.solver, 20)
+			}
 		}(ob)
 	}
 	// vacuity: every return must be reachable under the assumptions in force
